@@ -1,6 +1,6 @@
 (* C02 — property theorems (statements only; proofs live in Proofs*.v). *)
 From Coq Require Import ZArith QArith Qcanon List Bool Permutation.
-Require Import QV.C02.Spec QV.C02.Model QV.C02.Proofs QV.C02.Proofs2.
+Require Import QV.C02.Spec QV.C02.Model QV.C02.Proofs QV.C02.Proofs2 QV.C02.Proofs3.
 Import ListNotations.
 Open Scope Qc_scope.
 
@@ -25,6 +25,18 @@ Theorem C02_empty : forall p en mm,
 Proof. exact create_program_none. Qed.
 Print Assumptions C02_empty.
 
+Theorem C02_empty_denotes_nothing : forall p en mm, plays p en = false -> denote p en mm = [] /\ tdur p en = 0.
+Proof. intros p en mm H. split; [now apply denote_noplay | now apply tdur_noplay]. Qed.
+Print Assumptions C02_empty_denotes_nothing.
+
+(* corollary: if every declaration lies inside its own node (Spec.inside), every reported window lies inside
+   [0, program duration] — also inside reversed parts, repetitions and iterations *)
+Theorem C02_inside : forall p en mm prog,
+  create_program p en mm = Program prog -> inside p en = true ->
+  Forall (win_in 0 (ldur prog)) (loop_windows prog).
+Proof. exact program_windows_inside. Qed.
+Print Assumptions C02_inside.
+
 (* Loop.reverse_inplace on ANY loop tree (windows on any node, any repetition counts): same duration, every window
    mirrored about the total duration *)
 Theorem C02_reverse_mirrors : forall l,
@@ -32,3 +44,27 @@ Theorem C02_reverse_mirrors : forall l,
   Permutation (loop_windows (reverse_loop l)) (mirror (ldur l) (loop_windows l)).
 Proof. exact reverse_loop_spec. Qed.
 Print Assumptions C02_reverse_mirrors.
+
+(* Loop.cleanup() keeps duration and windows of any loop tree without empty loops ... *)
+Theorem C02_cleanup_preserves : forall l, wfl l = true ->
+  wfl (cleanup l) = true /\ ldur (cleanup l) = ldur l /\ Permutation (loop_windows (cleanup l)) (loop_windows l).
+Proof. exact cleanup_preserves. Qed.
+Print Assumptions C02_cleanup_preserves.
+
+(* ... in particular of every program the builder produces: the property also holds after cleanup() *)
+Theorem C02_windows_after_cleanup : forall p en mm prog,
+  create_program p en mm = Program prog ->
+  ldur (cleanup prog) = tdur p en /\ Permutation (loop_windows (cleanup prog)) (denote p en mm).
+Proof. exact cleanup_program_windows. Qed.
+Print Assumptions C02_windows_after_cleanup.
+
+(* non-vacuity: a reversed repetition inside a sequence with renaming satisfies the hypotheses of C02_windows and
+   C02_inside (a program is produced, all declarations inside their nodes) and reports 4 windows *)
+Example C02_example :
+  let a := Atom false (EC (Q2Qc 3)) [(1%N, EC (Q2Qc 1), EC (Q2Qc 1))] in
+  let p := Seq [(2%N, EC (Q2Qc 0), EC (Q2Qc 9))] [a; Rev (Rep [] (EC (Q2Qc 2)) (Map [] [(1%N, Some 3%N)] a))] in
+  match create_program p (fun _ => Q2Qc 0) Some with
+  | Program prog => inside p (fun _ => Q2Qc 0) && (length (loop_windows prog) =? 4)%nat
+  | _ => false
+  end = true.
+Proof. vm_compute. reflexivity. Qed.
